@@ -419,6 +419,8 @@ def compare(impl, model, case):
         # matrices): |impl - model| <= TOL * max(|model|, 1e-4 * scale); bound_pressure_face mixes 1 and -1/t: per entry
         vb = [Fraction(t[2]) for t in b["t"]]
         scale = max((abs(x) for x in vb), default=Fraction(0))
+        if key == "bound_flux":  # Dirichlet entries scale with K (like flux), Neumann entries are +-1
+            scale = max((abs(Fraction(t[2])) for t in m["flux"]["t"]), default=Fraction(0))
         floor = Fraction(0) if key == "bound_pressure_face" else scale / 10000
         rt = Fraction(1, 10 ** 9) if key == "bound_pressure_face" else Fraction(1, 10 ** 10)
         for ta, x in zip(a["t"], vb):
@@ -570,7 +572,10 @@ def oracle(case):
                 return {"what": f"Mpfa.discretize raised {type(e).__name__}: {e}", "key": "mpfa-raises"}
             for key in ("flux", "bound_flux"):
                 a, b = M[key].toarray(), MM[key].toarray()
-                if a.shape != b.shape or np.abs(a - b).max() > 1e-8 * scale:
+                colscale = np.full(a.shape[1], scale)
+                if key == "bound_flux":  # columns of Neumann faces are dimensionless (entries of order one), the others scale with K
+                    colscale[bc.is_neu | bc.is_internal] = max(scale, 1.0)
+                if a.shape != b.shape or np.any(np.abs(a - b) > 1e-8 * colscale[None, :]):
                     return {"what": f"TPFA and MPFA {key} differ on a Cartesian/tensor grid with diagonal K (max diff {np.abs(a - b).max() if a.shape == b.shape else 'shape'}, natural scale {scale!r})", "key": f"mpfa-{key}"}
     # 6. affine pressure with constant K on a K-orthogonal grid: exact fluxes and boundary pressures
     if korth and const and pure_bc:
